@@ -43,6 +43,9 @@ func c02source(b []byte) *mon.CountingSource {
 	return s
 }
 
+// c02sfntPlain selects the io.Reader (not io.ReaderAt) entry of sfnt.Read.
+var c02sfntPlain bool
+
 // onlyReader hides ReadAt/Seek so that io.Reader-based decoders see a plain stream.
 type onlyReader struct{ s *mon.CountingSource }
 
@@ -58,6 +61,10 @@ func nilIfNil[T any](p *T) any {
 var c02decode = map[string]c02dec{
 	dSfnt: func(b []byte) (any, *mon.CountingSource, error) {
 		s := c02source(b)
+		if c02sfntPlain {
+			f, err := sfnt.Read(onlyReader{s})
+			return nilIfNil(f), s, err
+		}
 		f, err := sfnt.Read(s) // s implements io.ReaderAt: the library reads tables on demand
 		return nilIfNil(f), s, err
 	},
@@ -197,12 +204,19 @@ func (x *c02call) acc(name string, fn func()) bool {
 	x.k.Class("acc:" + x.dec + ">" + name)
 	if pv != nil {
 		fr := mon.LibFrame(stack)
-		x.k.Fail("panic", "panic:"+x.dec+">"+name+":"+fr,
+		x.k.Fail("panic", "panic:"+x.dec+">"+name+":"+fr+":"+mon.PanicClass(pv),
 			"accessor %s on the result of a successful %s panicked: %v\ninput: %s, %d bytes\n%s", name, x.dec, pv, x.origin, len(x.b), stack)
 		x.k.Class("acc-panic:" + x.dec + ">" + name)
 		return false
 	}
 	return true
+}
+
+// c02last holds the measurements of the most recent c02run (one goroutine).
+var c02last struct {
+	alloc  uint64
+	calls  int64
+	hasSrc bool
 }
 
 // c02run is one monitored decoder call: journal, decode under recover with
@@ -217,11 +231,15 @@ func c02run(k *mon.Case, dec string, b []byte, origin string) (accepted bool) {
 	a0 := mon.TotalAlloc()
 	pv, stack := mon.Try(func() { val, src, err = d(b) })
 	alloc := mon.TotalAlloc() - a0
+	c02last.alloc, c02last.hasSrc, c02last.calls = alloc, src != nil, 0
+	if src != nil {
+		c02last.calls = src.Calls
+	}
 	k.Eval()
 	k.Class("dec:" + dec + ":calls")
 	if pv != nil {
 		fr := mon.LibFrame(stack)
-		k.Fail("panic", "panic:"+dec+":"+fr, "%s panicked: %v\ninput: %s, %d bytes\n%s", dec, pv, origin, len(b), stack)
+		k.Fail("panic", "panic:"+dec+":"+fr+":"+mon.PanicClass(pv), "%s panicked: %v\ninput: %s, %d bytes\n%s", dec, pv, origin, len(b), stack)
 		k.Class("dec:" + dec + ":panic")
 		return false
 	}
@@ -364,15 +382,44 @@ func c02accessCmap(x *c02call, t cmap.Table, encode bool) {
 		keys = kk
 		x.k.Class("cmap:keys-sampled")
 	}
-	seen := map[string]bool{}
-	for _, key := range keys {
-		var sub cmap.Subtable
-		var err error
-		ok := x.acc("Table.Get", func() { sub, err = t.Get(key) })
-		if !ok {
-			break
+	// Get is the lazy half of the decoder "cmap.Decode+Get": every call is
+	// held to the allocation bound of the table it came from.  Fast path: the
+	// sum over all keys is within the bound, then so is every single call.
+	subs := make([]cmap.Subtable, len(keys))
+	bound := mon.C02AllocBound(len(x.b))
+	getAll := func() bool {
+		return x.acc("Table.Get", func() {
+			for i, key := range keys {
+				sub, err := t.Get(key)
+				if err != nil || sub == nil {
+					subs[i] = nil
+					continue
+				}
+				subs[i] = sub
+			}
+		})
+	}
+	var ok bool
+	total := mon.MeasureAlloc(func() { ok = getAll() })
+	x.k.Max("alloc/bound:"+x.dec+">Table.Get(sum over keys)", float64(total)/float64(bound))
+	if !ok {
+		return
+	}
+	if total > bound {
+		for _, key := range keys {
+			one := mon.MeasureAlloc(func() { mon.Try(func() { t.Get(key) }) })
+			if one > bound {
+				site := mon.AllocSite(func() { t.Get(key) })
+				x.k.Fail("resource", "resource:alloc:"+x.dec+">Table.Get@"+site,
+					"Table.Get(%v) allocated %d bytes for a cmap table of %d bytes (subtable %d bytes); bound %d\ninput: %s", key, one, len(x.b), len(t[key]), bound, x.origin)
+				break
+			}
 		}
-		if err != nil || sub == nil {
+	}
+	seen := map[string]bool{}
+	for i, key := range keys {
+		sub := subs[i]
+		if sub == nil {
 			x.k.Class("cmap.Get:error")
 			continue
 		}
@@ -397,20 +444,45 @@ func c02accessCmap(x *c02call, t cmap.Table, encode bool) {
 }
 
 func c02accessGlyphs(x *c02call, gg glyf.Glyphs, encode bool) {
-	x.acc("SimpleGlyph.Decode", func() {
-		for _, g := range gg {
+	// SimpleGlyph.Decode is the lazy half of "glyf.Decode+SimpleGlyph.Decode":
+	// every call is held to the allocation bound of the input it came from
+	// (fast path: the sum over all glyphs is within the bound).
+	bound := mon.C02AllocBound(len(x.b))
+	var ok bool
+	total := mon.MeasureAlloc(func() {
+		ok = x.acc("SimpleGlyph.Decode", func() {
+			for _, g := range gg {
+				if g == nil {
+					continue
+				}
+				if sg, ok := g.Data.(glyf.SimpleGlyph); ok {
+					if _, err := sg.Decode(); err != nil {
+						x.k.Class("SimpleGlyph.Decode:error")
+					} else {
+						x.k.Class("SimpleGlyph.Decode:ok")
+					}
+				}
+			}
+		})
+	})
+	x.k.Max("alloc/bound:"+x.dec+">SimpleGlyph.Decode(sum over glyphs)", float64(total)/float64(bound))
+	if ok && total > bound {
+		for gid, g := range gg {
 			if g == nil {
 				continue
 			}
-			if sg, ok := g.Data.(glyf.SimpleGlyph); ok {
-				if _, err := sg.Decode(); err != nil {
-					x.k.Class("SimpleGlyph.Decode:error")
-				} else {
-					x.k.Class("SimpleGlyph.Decode:ok")
-				}
+			sg, isSimple := g.Data.(glyf.SimpleGlyph)
+			if !isSimple {
+				continue
+			}
+			one := mon.MeasureAlloc(func() { mon.Try(func() { sg.Decode() }) })
+			if one > bound {
+				x.k.Fail("resource", "resource:alloc:"+x.dec+">SimpleGlyph.Decode",
+					"SimpleGlyph.Decode of glyph %d (%d encoded bytes) allocated %d bytes; input %d bytes; bound %d\ninput: %s", gid, len(sg.Encoded), one, len(x.b), bound, x.origin)
+				break
 			}
 		}
-	})
+	}
 	x.acc("Glyph.Components", func() {
 		for _, g := range gg {
 			if c := g.Components(); c != nil {
